@@ -30,6 +30,8 @@ BREAKS = [
     ('ExprAff.get_w names the source', 'miasmx/expression/expression.py', '            return self.dst.get_w()\n', '            return self.src.get_w()\n', 'checks.C16smt', 'ind:ExprAff.get_w['),
     ('key_expr ignores the end of a slice', 'miasmx/expression/expression.py', 'return [ 5, key_expr(e.arg), e.start, e.stop ]', 'return [ 5, key_expr(e.arg), e.start ]', 'checks.C13smt', 'ind:key_expr[ExprSlice'),
     ('key_expr ignores the segment of a cell', 'miasmx/expression/expression.py', 'return [ 3, key_expr(e.arg), e.size, key_expr(e.segm) ]', 'return [ 3, key_expr(e.arg), e.size ]', 'checks.C13smt', 'ind:key_expr[ExprMem'),
+    ('MatchExpr forgets the second arm of a conditional', 'miasmx/expression/expression.py', '        r = MatchExpr(e.src2, m.src2, tks, result)\n        if r is False: return False\n', '', 'checks.C16smt', 'ind:MatchExpr[ExprCond'),
+    ('MatchExpr ignores the segment of a cell', 'miasmx/expression/expression.py', '        if e.size != m.size or e.segm != m.segm:', '        if e.size != m.size:', 'checks.C16smt', 'ind:MatchExpr[ExprMem'),
 ]
 
 DRIVER = r'''
@@ -49,6 +51,7 @@ class R(object):
 r = R()
 mod.ob_smt(r)
 if hasattr(mod, 'ob_ad'): mod.ob_ad(r)
+if hasattr(mod, 'ob_match'): mod.ob_match(r)
 print(json.dumps(obs))
 '''
 
